@@ -90,7 +90,9 @@ def _execute(case):
     if op == "roll":
         x = np.array(case["x"], dtype=case["dtype"])
         if case["api"] == "kernel":
+            w_ = core.Watch(x)
             case["y"] = strs(rolling_sum(x, case["w"], case["nd"]))
+            case["inmod"] = w_.changed()
         else:
             dims = case.get("dims", ["y", "x", "time"])
             shape = [1, 1, 1]
@@ -114,7 +116,9 @@ def _execute(case):
         x = np.array(case["x"], dtype=case["dtype"])
         g = np.array(case["g"], dtype="int16")
         if case["api"] == "kernel":
+            w_ = core.Watch(x, g)
             case["y"] = strs(mean_grp(x, g, case["ng"], case["nd"]))
+            case["inmod"] = w_.changed()
         else:
             da = xr.DataArray(x.reshape(1, 1, -1), dims=["y", "x", "time"])
             if case.get("attr") is not None:          # the argument must win over the attribute
